@@ -54,6 +54,10 @@ CLAIMED = {
          'One step of the real adaptiveShedder.Allow / promise.Pass / promise.Fail from an arbitrary shedder state (rolling-window bucket contents, in-flight count and moving average, droppedRecently, overloadTime, CPU load, threshold and clock all symbolic; floats in the E2 real relaxation) against a capacity oracle recomputed by the harness: shed only if (cpu >= threshold or still hot) and in-flight > 10% of capacity; must shed when overloaded with in-flight and average above capacity; never shed with nothing in flight; exact in-flight, window and cool-off state transitions; Disable() yields a shedder that never sheds.',
          'go/ssa translation, gosym, z3; E2 float encoding (over-approximation of IEEE-754 RNE with monotonicity/anchor axioms; Floor/Ceil/Round of integer/constant quotients computed exactly in integers); 1..2 buckets in quick (1..3 thorough), per-bucket pass count <= 2 (8), 0..1 (0..3) latency samples per bucket; stat.CpuUsage stubbed by a symbolic load; cpuThreshold in 1..999; which buckets a Reduce visits is C16\'s claim (recomputed in the oracle); SheddingHandler/interceptor wrappers are not covered.',
          'SSA symbolic execution + SMT (z3), one-step check from an arbitrary state, E2 float relaxation'),
+ 'C06': ('DESIGN.md §4 C06',
+         'Symbolic execution of the real cacheNode (TakeCtx/TakeWithExpireCtx/doTake/doGetCache/processCache/setCacheWithNotFound/SetWithExpireCtx/SetCtx/DelCtx), mathx.Unstable.AroundDuration (jitter arithmetic in the E2 float relaxation, random draw symbolic) and the SingleFlight barrier against the Redis model: one cached read from an arbitrary coherent (cache, database) state with symbolic TTL/clock, database failure and a store failure at a symbolic call index; TTL windows (+/-5%, rounded up, >= 1 s, never persistent); writes and invalidation; two concurrent readers under every interleaving (one query in flight, shared result).',
+         'go/ssa translation, gosym, z3, Redis model (trusted; Go-level GET/SET EX/SETNX EX/DEL glue of core/stores/redis replaced by the model); jsonx replaced by a token table; expiry in {1 s, 10 s, 7 d}; cache statistics and the retry cleaner\'s timing wheel stubbed; sqlc.CachedConn (ExecCtx/QueryRowIndexCtx) and the multi-node cacheCluster dispatch are not covered.',
+         'SSA symbolic execution + SMT (z3) over a Redis model, one-step check from an arbitrary coherent state + scheduler for the 2-reader flight'),
 }
 
 NA = {
